@@ -940,6 +940,11 @@ func (r *foRun) doGet(ci, oi int, op *FOOp, shared []byte) []byte {
 		kb = shared
 	} else {
 		kb = []byte(key)
+
+		if op.MutateKey == "" {
+			// the caller owns its key slice again once Get has returned
+			defer scribble(kb)
+		}
 	}
 
 	ctx := context.WithValue(context.Background(), markerKey{}, "marker")
